@@ -178,18 +178,14 @@ func histConfig(a vh.Args, i int) histCfg {
 	return cfg
 }
 
-// Panics the library raises when it detects that one of the monitored properties
-// is broken (agreement on committed entries, gap-free in-order apply, at most one
-// application of a session series, exactly one truthful result per request,
-// snapshot / on-disk index consistency): a history that dies of one of these is
-// reported as a violation. Any other panic on a library goroutine is recorded as
-// "library-panic" and the history is skipped.
-var monitoredPanic = regexp.MustCompile(`conflicts with committed|committed entries being changed|committed value moving backwards|` +
-	`index gap found|gap between batches|applied index \d+, new index|applied term|term moving backward|alignment error|` +
-	`already has response|duplicated response|committed entry (dropped|aborted)|applied entry dropped|notified twice|` +
-	`CompletedC is full|committedC is full|request(Aborted|Committed) sent to CompletedC|same system ctx added again|` +
-	`multiple uncommitted config change|out of date snapshot|OnDiskIndex|OnDiskInit|on disk index|init on disk|` +
-	`invalid (commitTo|last applied|ApplyReturnedTo)`)
+// A panic on a goroutine of the library (it cannot be recovered from: the history
+// dies) is a verdict: the library found one of its own invariants broken, or
+// dereferenced nil, while it was driven through its public API by a correct
+// client. The history becomes a case that the monitor reports. The only panics that
+// are skipped are the documented operator errors and known findings listed here
+// (DESIGN.md, findings/known.txt); a history that could not be run at all (cluster
+// did not come up in time, killed by the time limit) is skipped as before.
+var knownPanic = regexp.MustCompile(`empty membership`) // exported snapshot requested on a replica that has applied nothing (DESIGN.md, observation on SyncRequestSnapshot)
 
 // classifyDeath reads what a history child wrote to stderr.
 // kind: "panic" (library goroutine), "harness" (panic in the harness' own code),
@@ -213,6 +209,10 @@ func classifyDeath(stderr string) (kind string, first string) {
 			if strings.HasPrefix(f, "main.") {
 				kind = "harness"
 			}
+			if i := strings.Index(f, "("); i > 0 {
+				f = f[:i]
+			}
+			first += " (in " + f + ")"
 			break
 		}
 		return kind, first
@@ -276,8 +276,8 @@ func gen(a vh.Args) {
 		case kind == "harness":
 			fmt.Fprintf(os.Stderr, "c01 gen: history %s: the harness itself panicked\n%s\n", name, eb.String())
 			os.Exit(1)
-		case kind == "panic" && monitoredPanic.MatchString(first):
-			// the library noticed a broken invariant of a monitored property: a violation
+		case kind == "panic" && !knownPanic.MatchString(first):
+			// the library panicked under a correct client: a violation
 			w.Printf("%s HIST log=- final=? smcheck=ok mon=%s nev=0\n", name, strings.ReplaceAll("library "+first, " ", "_"))
 			info.Printf("%s DIED %s\n%s\n", name, first, eb.String())
 		default:
